@@ -229,6 +229,25 @@ def _derives_from_param_value(view: FuncInfo, e: ast.expr, param: str, depth: in
         return isinstance(x, ast.Name) and x.id == param
     if isinstance(e, ast.IfExp):
         return _derives_from_param_value(view, e.body, param, depth + 1) and _derives_from_param_value(view, e.orelse, param, depth + 1)
+    if isinstance(e, ast.Call) and depth < 6:
+        # a small "listify" helper: its single return expression derives from one of its parameters, which receives the value
+        from .c05_views import _bind_call
+
+        T = types_of(view.module.repo)  # type: ignore[attr-defined]
+        src = getattr(e, "_src", None)
+        ctx, orig = src if src is not None else (view, e)
+        try:
+            cs, how = T.callees(ctx, orig, byname_fallback=False)
+        except Exception:  # noqa: BLE001
+            cs, how = [], ""
+        cs = [c for c in cs if not c.is_abstract and not isinstance(c.node, ast.Lambda)]
+        if len(cs) == 1 and how == "repo":
+            body = [st for st in cs[0].node.body if not (isinstance(st, ast.Expr) and isinstance(st.value, ast.Constant))]
+            binding = _bind_call(cs[0], e)
+            if len(body) == 1 and isinstance(body[0], ast.Return) and body[0].value is not None and binding:
+                for q, a in binding.items():
+                    if _derives_from_param_value(cs[0], body[0].value, q, depth + 1) and _derives_from_param_value(view, a, param, depth + 1):
+                        return True
     return False
 
 
@@ -366,8 +385,7 @@ def check_are_named(repo: Repo, res: Result) -> FuncInfo | None:
         as_filters = any(getattr(p, "mode", "") == "filters" for p in prods)
         res.add("C05.R1", construct, True, "every module filter of every named layer reaches the wrapped rule as " + ("a module filter of its own kind" if as_filters else "(identifier, identifier_is_regex)"), where(an, an.node), kind="flow")
         if as_filters:
-            res.observe("C05.R1 LayerRule.are_named hands module filter objects to the wrapped rule: no (identifier, is-regex) pairs to turn into filters on the Rule side")
-            return None
+            receiver.c05_mode = "FILTERS"  # type: ignore[attr-defined]
     return receiver
 
 
@@ -561,13 +579,15 @@ class Components:
 
     @staticmethod
     def elem(t: str | None) -> str | None:
-        return {"SPECS": "SPEC", "NAMES": "NAME", "FLAGS": "FLAG", "ENUM-SPECS": "ENUM-SPEC"}.get(t or "")
+        return {"SPECS": "SPEC", "NAMES": "NAME", "FLAGS": "FLAG", "ENUM-SPECS": "ENUM-SPEC", "FILTERS": "FILTER"}.get(t or "")
 
     def tag(self, e: ast.expr | None) -> str | None:
         if e is None:
             return None
         if isinstance(e, ast.Name):
             return self.env.get(e.id)
+        if isinstance(e, ast.Attribute) and self.tag(e.value) == "FILTER":
+            return {"identifier_is_regex": "FLAG", "identifier": "NAME", "name": "NAME"}.get(e.attr)
         if isinstance(e, ast.Subscript) and isinstance(e.slice, ast.Constant) and self.tag(e.value) == "SPEC":
             return {0: "NAME", 1: "FLAG", -1: "FLAG", -2: "NAME"}.get(e.slice.value)
         if isinstance(e, ast.Subscript) and isinstance(e.slice, ast.Slice):
@@ -839,12 +859,16 @@ def check_filter_selection(repo: Repo, res: Result, receiver: FuncInfo | None) -
         res.undecide("C05.R1", construct, "the receiving Rule method has no parameter for the module specifications", where(receiver, receiver.node))
         return
     nodes = list(all_nodes(view))
-    comp = Components(view, nodes, {params[0]: "SPECS"})
+    mode = getattr(receiver, "c05_mode", "SPECS")
+    comp = Components(view, nodes, {params[0]: mode})
     sites: list = []
     from core.guards import TRUE
 
     _maker_sites(repo, T, view, nodes, classes, comp, TRUE, 0, sites)
     kinds = {k for k, _f, _n, _c in sites}
+    if mode == "FILTERS" and not sites:
+        res.add("C05.R1", construct, True, "the layer's own module filters are taken over as they are (their kind is preserved)", where(receiver, receiver.node), kind="structural")
+        return
     if not any("FLAG" in atoms_of(f) for _k, f, _n, _c in sites if f is not None) and ("regex" in kinds and "name" in kinds) and "FLAG" not in comp.env.values():
         res.undecide("C05.R1", construct, f"cannot find where the (identifier, is-regex) pairs of `{params[0]}` are taken apart", where(receiver, receiver.node))
         return
